@@ -153,6 +153,17 @@ func genC07(seed, index uint64, tier string) *Plan {
 	co.Cond = false
 	co.Subcharts = false
 	p.Charts = g.ChartFamily(co)
+	// some resources live in (or move to) an explicitly named other namespace: identity includes the namespace
+	if g.Chance(0.4) {
+		for ci := range p.Charts {
+			for si := range p.Charts[ci].Slots {
+				s := &p.Charts[ci].Slots[si]
+				if res, ok := resByKind(s.Kind); ok && res.Namespaced && s.Hook == nil && g.Chance(0.3) {
+					s.NS = "other"
+				}
+			}
+		}
+	}
 	ho := &HistoryOpts{NVersions: len(p.Charts), Flags: true, WaitP: 0.2, AtomicP: 0.1, FirstInst: 1}
 	n := 1 + g.Weighted(4, 4, 2)
 	for i := 0; i < n; i++ {
@@ -197,7 +208,7 @@ func (g *Gen) plantFor(s *ResSlot, p *Plan) *OobSpec {
 	md := map[string]interface{}{}
 	labels := map[string]interface{}{}
 	ann := map[string]interface{}{}
-	name, ns := s.Name, ""
+	name, ns := s.Name, s.NS
 	switch g.N(8) {
 	case 0: // no metadata at all
 	case 1: // foreign labels only
@@ -221,7 +232,11 @@ func (g *Gen) plantFor(s *ResSlot, p *Plan) *OobSpec {
 		ann["meta.helm.sh/release-name"] = p.Release
 		ann["meta.helm.sh/release-namespace"] = p.Namespace
 	case 7: // same name in another namespace: not a conflict
-		ns = "other"
+		if s.NS == "" {
+			ns = "other"
+		} else {
+			ns = p.Namespace
+		}
 	}
 	if len(labels) > 0 {
 		md["labels"] = labels
